@@ -12,6 +12,7 @@ import CR.Model.Solver
 import CR.Model.Gen
 import CR.Model.Validate
 import CR.Model.Batch
+import CR.Model.Report
 
 open Lean CR
 
@@ -327,6 +328,43 @@ def opBatch (j : Json) : Except String Json := do
 
 end CR.Drv
 
+namespace CR.Drv
+open CR.Report
+
+partial def parseRVal (j : Json) : Except String RVal := do
+  let t ← getStr j "t"
+  match t with
+  | "none" => pure .none
+  | "bool" => pure (.bool (getBoolD j "v" false))
+  | "int" => pure (.int (← getInt j "v"))
+  | "float" => pure (.float (← getStr j "v"))
+  | "str" => pure (.str (← getStr j "v"))
+  | "list" => do
+    let a ← getArr j "v"
+    let l ← a.mapM parseRVal
+    pure (.list l.toList)
+  | _ => throw s!"bad rval tag {t}"
+
+def parseEntry (j : Json) : Except String (String × Report.Entry) := do
+  let f (k : String) : Except String RVal := do parseRVal (← j.getObjVal? k)
+  pure (← getStr j "name",
+    { msg := ← getStr j "msg", nStates := ← f "n_states", nTransitions := ← f "n_transitions",
+      itReach := ← f "it_reach", itRew := ← f "it_rew", reachStrat := ← f "reach_strat",
+      finalStrat := ← f "final_strat", areEqual := getBoolD j "are_equal" false,
+      probabilities := ← f "probabilities", probMinRew := ← f "prob_min_rew", rewards := ← f "rewards",
+      rewMinReach := ← f "rew_min_reach", totalTime := ← getStr j "total_time" })
+
+def opReport (j : Json) : Except String Json := do
+  let es ← (← getArr j "entries").mapM parseEntry
+  let path ← getStr j "path"
+  let text := renderReport es.toList
+  let lines := es.toList.flatMap (fun ne => blockLines ne.1 ne.2)
+  let back := readBlocks lines
+  pure (Json.mkObj [("outcome", "ok"), ("text", Json.str text), ("outname", Json.str (outName path)),
+    ("readback", Json.arr (back.toArray.map (fun b => Json.arr (b.toArray.map Json.str))))])
+
+end CR.Drv
+
 def handle (line : String) : Json :=
   match Json.parse line with
   | .error e => Json.mkObj [("outcome", "bad-request"), ("detail", Json.str e)]
@@ -351,6 +389,7 @@ def handle (line : String) : Json :=
       | "validate", _ => CR.Drv.opValidate j
       | "batch", _ => CR.Drv.opBatch j
       | "manualname", _ => CR.Drv.opManualName j
+      | "report", _ => CR.Drv.opReport j
       | _, _ => throw s!"unknown op {op}"
     match r with
     | .ok v => v
